@@ -89,16 +89,24 @@ Example api_trace :
 Proof. vm_compute. repeat split. Qed.
 
 (** C07_lex_agrees_before_failure on bad_text = { a: QUOTE unterminated LF }: the grammar yields five
-    tokens and fails at the string; the first four ({ space a :) are agreed (the fifth, the space
-    before the quote, is the last token before the failure point), they cover 4 code points, the
+    tokens ({ space a : space) and fails at the string, code point 5; all five are agreed, the
     scanner's tokens begin with them and its only error (at the line feed, code point 18) is not
-    before them *)
+    before them.  On bad_text2 = QUOTE \x QUOTE space # NUL the failure is at once (nothing agreed);
+    on a comment running into NUL the comment is left out of the agreed tokens. *)
 Example bad_text_agreed :
   let stoks := fst (spec_lex bad_cps) in
   let ag := agreed bad_cps stoks true in
-  length ag = 4%nat /\ agreed_count ag = 4%nat /\
+  length ag = 5%nat /\ agreed_count ag = 5%nat /\
   match lex true bad_text with
-  | Done ts es => firstn 4 ts = map token_of_stoken ag /\ es = [advance_pos (1, 1) 18 bad_cps]
+  | Done ts es => firstn 5 ts = map token_of_stoken ag /\ es = [advance_pos (1, 1) 18 bad_cps]
   | OutOfFuel => False
+  end.
+Proof. vm_compute. repeat split. Qed.
+
+Example comment_not_agreed :
+  let cps := [97; 32; 35; 98; 0; 99]%N in       (* a space # b NUL c *)
+  match spec_lex cps with
+  | (stoks, EndError RNonSource 4 _ _) => length stoks = 3%nat /\ agreed_count (agreed cps stoks true) = 2%nat
+  | _ => False
   end.
 Proof. vm_compute. repeat split. Qed.
